@@ -89,7 +89,7 @@ IMMUTABLE_ANNOTATION_ATOMS = {"int", "str", "bool", "bytes", "float", "complex",
                               "AdditionalLine", "CodeData", "Instruction", "Ellipsis", "..."}
 
 
-@harness("frame.value_classes_are_frozen", props=["C08"], functions=["code_data (data classes)"], configs="any",
+@harness("frame.value_classes_are_frozen", props=["C08", "C14"], functions=["code_data (data classes)"], configs="any",
          notes="every data class of code_data/__init__.py is declared @dataclass(frozen=True) and every field annotation is built only from tuples, frozensets, "
                "scalars and other frozen data classes, so attributes cannot be reassigned and every value is hashable")
 def h_frozen(ctx, cfg):
@@ -334,6 +334,12 @@ def h_eq_fields(ctx, cfg):
     ctx.prove("fields_found", z3.BoolVal(n >= 30))
 
 
+# names that only exist on newer interpreters: methods whatever the receiver (unambiguous names only), and module functions by qualified name
+NEWER_METHODS = {"removeprefix": "3.9", "removesuffix": "3.9", "bit_count": "3.10", "cached_property": "3.8", "is_relative_to": "3.9", "with_stem": "3.9", "hardlink_to": "3.10"}
+NEWER_FUNCTIONS = {("math", "prod"): "3.8", ("math", "isqrt"): "3.8", ("math", "comb"): "3.8", ("math", "perm"): "3.8", ("math", "dist"): "3.8", ("math", "lcm"): "3.9", ("math", "nextafter"): "3.9",
+                   ("math", "ulp"): "3.9", ("ast", "unparse"): "3.9", ("itertools", "pairwise"): "3.10", ("statistics", "fmean"): "3.8", ("functools", "cache"): "3.9", ("ast", "get_source_segment"): "3.8"}
+
+
 @harness("portability.no_construct_that_only_newer_interpreters_evaluate", props=["C15", "C07", "C01"], functions=["code_data (all library modules)"], configs="any",
          notes="every library module parses with the 3.7 grammar (no walrus, no positional-only marker, no match, no parenthesised context managers), and no expression that is "
                "*evaluated at run time* (i.e. outside annotations, which `from __future__ import annotations` keeps unevaluated) subscripts a builtin container type (`list[int]`: TypeError "
@@ -376,6 +382,12 @@ def h_portability(ctx, cfg):
                   any(isinstance(s, ast.Name) and s.id in ("int", "str", "bytes", "float", "bool", "None", "list", "dict", "tuple", "set", "frozenset", "object", "complex") or
                       isinstance(s, ast.Constant) and s.value is None for s in (node.left, node.right))):
                 bad = "run-time union of types %s (line %d)" % (ast.unparse(node)[:40], node.lineno)
+            elif isinstance(node, ast.Attribute) and node.attr in NEWER_METHODS and isinstance(getattr(node, "ctx", None), ast.Load):
+                bad = "method .%s() exists only from Python %s (line %d)" % (node.attr, NEWER_METHODS[node.attr], node.lineno)
+            elif isinstance(node, ast.Attribute) and isinstance(node.value, ast.Name) and (node.value.id, node.attr) in NEWER_FUNCTIONS:
+                bad = "%s.%s exists only from Python %s (line %d)" % (node.value.id, node.attr, NEWER_FUNCTIONS[(node.value.id, node.attr)], node.lineno)
+            elif isinstance(node, ast.Call) and isinstance(node.func, ast.Name) and node.func.id == "zip" and any(k.arg == "strict" for k in node.keywords):
+                bad = "zip(strict=...) exists only from Python 3.10 (line %d)" % node.lineno
             if bad:
                 n += 1
                 if id(node) in version_guarded:
